@@ -113,3 +113,13 @@ Theorem C02_quad_edge_rows_chained :
   | cons e _ => exists w, (w = 1 \/ w = -1)%Z /\ chained w (e_first_y e) ls
   end.
 Proof. exact quad_edge_lines_chained. Qed.
+
+(* the same for CubicEdge (cubic_edge correspondence), including its pin newy := max newy oldy *)
+Theorem C02_cubic_edge_rows_chained :
+  forall p0 p1 p2 p3 sh ls,
+  cubic_edge_lines p0 p1 p2 p3 sh = Some ls ->
+  match ls with
+  | nil => True
+  | cons e _ => exists w, (w = 1 \/ w = -1)%Z /\ chained w (e_first_y e) ls
+  end.
+Proof. exact cubic_edge_lines_chained. Qed.
